@@ -338,6 +338,10 @@ func (d *Device) asaAddACE(line string) string {
 		return "unmodelled"
 	}
 	name, lineNr, kind, rest := m[1], m[3], m[4], m[5]
+	if lineNr != "" && (kind == "standard" || kind == "remark" && d.ACL(name) != nil && d.ACL(name).Standard) {
+		// Entries of a standard access-list cannot be addressed by line.
+		return "rejected:position 'line' is not available in standard access-list " + name
+	}
 	text := rest
 	if kind == "remark" {
 		text = "remark " + rest
@@ -347,6 +351,17 @@ func (d *Device) asaAddACE(line string) string {
 	if acl == nil {
 		acl = &ACL{Name: name, Standard: kind == "standard"}
 		d.ACLs = append(d.ACLs, acl)
+	}
+	if kind == "standard" && !acl.Standard {
+		// An access-list that only holds remarks so far gets its type
+		// from the first entry.
+		onlyRemarks := true
+		for _, e := range acl.Entries {
+			onlyRemarks = onlyRemarks && e.ACE.Remark != ""
+		}
+		if onlyRemarks {
+			acl.Standard = true
+		}
 	}
 	if ace.Remark == "" {
 		for _, e := range acl.Entries {
@@ -388,6 +403,9 @@ func (d *Device) asaDelACE(line string) string {
 		return "unmodelled"
 	}
 	name, lineNr, kind, rest := m[1], m[3], m[4], m[5]
+	if lineNr != "" && kind == "standard" {
+		return "rejected:position 'line' is not available in standard access-list " + name
+	}
 	text := rest
 	if kind == "remark" {
 		text = "remark " + rest
